@@ -289,6 +289,9 @@ fn thread_threshold<'a, const FIRST: bool>(
             mem::swap(queue, work);
         }
     }
+    // NOTE the frontier is the unexpanded part of this level and the part of the next level that
+    // was already expanded into, nothing may stay behind for the next pass
+    queue.append(work);
 }
 
 /// workspace needed between iterations to avoid excess allocation
